@@ -255,6 +255,8 @@ def run_property(pid, tier, seed, replay, keep, only):
     if not replay and os.path.exists(evpath):
         os.remove(evpath)
 
+    # private Go build cache of the run (used by jobs that compile many one-off packages), removed at the end
+    shutil.rmtree(os.path.join(wroot, ".gocache"), ignore_errors=True)
     crash_violations = []
     infra_errors = []
     job_reports = []
@@ -360,8 +362,14 @@ def run_property(pid, tier, seed, replay, keep, only):
                     infra_errors.append("test binary of job %s failed without recording a violation (rc=%s):\n%s" % (
                         job["name"], rc, txt[-5000:]))
 
+    shutil.rmtree(os.path.join(wroot, ".gocache"), ignore_errors=True)
     st = merge_stats(sdir, pid)
     viols = st["violations"] + crash_violations
+    # a full disk / exhausted memory makes compilers, generators and the code under test fail in ways that look like
+    # violations: that is the environment, not a verdict
+    for v in viols:
+        if re.search(r"no space left on device|cannot allocate memory|out of memory", v.get("message", "")):
+            raise Infra("resource exhaustion during the run (inconclusive): " + v["message"][:300])
     if infra_errors and not viols:
         raise Infra("\n".join(infra_errors))
     if st["files"] == 0 and not viols:
